@@ -99,48 +99,51 @@ Proof. intros U ops h g q lo Hf Hw Hg. exact (lookup_eq_spec_reachable U ops h g
 Print Assumptions C09_pipeline.
 
 (* ---- paging ------------------------------------------------------------------------------------------------------- *)
-(* the counters of the checker implement the declarative page for ALL integer values of MaxElements and Offset; the
-   number of skipped elements is MaxElements * Offset computed in Go's 64-bit int (wrap64 is the identity below 2^63) *)
+(* the counters of the checker implement the declarative page for ALL integer values of MaxElements and Offset;
+   skip_count is newChecker's paddedPageSize (after fix F23: saturated when the product of two positive ints overflows) *)
 Theorem C09_page_characterised : forall (A : Type) lo (l : list A),
   page lo l =
-  if (lo_max lo >? 0)%Z then firstn (Z.to_nat (lo_max lo)) (skipn (Z.to_nat (wrap64 (lo_max lo * lo_offset lo))) l)
-  else skipn (Z.to_nat (wrap64 (lo_max lo * lo_offset lo))) l.
+  if (lo_max lo >? 0)%Z then firstn (Z.to_nat (lo_max lo)) (skipn (Z.to_nat (skip_count (lo_max lo) (lo_offset lo))) l)
+  else skipn (Z.to_nat (skip_count (lo_max lo) (lo_offset lo))) l.
 Proof. exact page_is_spec_page. Qed.
 Print Assumptions C09_page_characterised.
 
-Theorem C09_wrap64_identity : forall z, (-9223372036854775808 <= z < 9223372036854775808)%Z -> wrap64 z = z.
-Proof. exact wrap64_small. Qed.
-Print Assumptions C09_wrap64_identity.
+(* what the skip count is for a positive page size and a non-negative offset (both in the range of Go's int):
+   n * k when that fits in an int, and MaxInt - beyond the end of every possible result - when it does not *)
+Theorem C09_skip_count_meaning : forall n k,
+  (0 < n < 9223372036854775808)%Z -> (0 <= k < 9223372036854775808)%Z ->
+  ((n * k < 9223372036854775808)%Z -> skip_count n k = (n * k)%Z) /\
+  ((9223372036854775808 <= n * k)%Z -> skip_count n k = 9223372036854775807%Z).
+Proof. exact skip_count_spec. Qed.
+Print Assumptions C09_skip_count_meaning.
 
-(* page size n > 0, offset k: the k-th block of n elements of the unpaged result.
-   Domain D: n * k < 2^63 (the product does not overflow Go's int); outside D the statement is FALSE, see below *)
-Theorem C09_page_block_partial : forall q lo g l (n : Z) (k : nat), (0 < n)%Z ->
-  (n * Z.of_nat k <? 9223372036854775808)%Z = true ->
+(* page size n > 0, offset k: the k-th block of n elements of the unpaged result - for EVERY page size and offset that
+   a Go int can hold and every result shorter than 2^63 *)
+Theorem C09_page_block : forall q lo g l (n : Z) (k : nat),
+  (0 < n < 9223372036854775808)%Z -> (Z.of_nat k < 9223372036854775808)%Z ->
+  (Z.of_nat (length l) < 9223372036854775808)%Z ->
   lookup q (unpaged lo) g = LOk l ->
   lookup q (with_page lo n (Z.of_nat k)) g = LOk (firstn (Z.to_nat n) (skipn (Z.to_nat n * k) l)).
-Proof. intros q lo g l n k Hn Hb. apply page_of_unpaged; auto. now apply Z.ltb_lt. Qed.
-Print Assumptions C09_page_block_partial.
+Proof. exact page_of_unpaged. Qed.
+Print Assumptions C09_page_block.
 
 (* consecutive pages are disjoint segments and their concatenation is the unpaged result, for every n > 0 and every
-   number of pages K that covers the result (D: n * K < 2^63, which the minimal K satisfies for every real list) *)
-Theorem C09_pages_partition_partial : forall q lo g l (n : Z) (K : nat), (0 < n)%Z ->
-  (n * Z.of_nat K <? 9223372036854775808)%Z = true ->
+   number of pages K that covers the result *)
+Theorem C09_pages_partition : forall q lo g l (n : Z) (K : nat),
+  (0 < n < 9223372036854775808)%Z -> (Z.of_nat K < 9223372036854775808)%Z ->
+  (Z.of_nat (length l) < 9223372036854775808)%Z ->
   lookup q (unpaged lo) g = LOk l -> (length l <= Z.to_nat n * K)%nat ->
   concat (map (fun k => results (lookup q (with_page lo n (Z.of_nat k)) g)) (seq 0 K)) = l.
-Proof. intros q lo g l n K Hn Hb. apply pages_partition; auto. now apply Z.ltb_lt. Qed.
-Print Assumptions C09_pages_partition_partial.
+Proof. exact pages_partition. Qed.
+Print Assumptions C09_pages_partition.
 
-(* outside D: MaxElements = Offset = 2^32. The product 2^64 wraps to 0, so page number 2^32 (far beyond the end of a
-   one-element result) returns that element instead of nothing.  Open finding C09-page-overflow. *)
-Theorem C09_page_overflow_refuted : exists (lo : lopts) (n k : Z) (l : list N),
-  (0 < n)%Z /\ (0 <= k)%Z /\
-  (Z.of_nat (length l) <= n * k)%Z /\              (* block number k lies beyond the end of l: it is empty *)
-  page (with_page lo n k) l <> [].
-Proof.
-  exists default_lo, 4294967296%Z, 4294967296%Z, [7%N]. split; [reflexivity|]. split; [discriminate|].
-  split; [discriminate|]. vm_compute. discriminate.
-Qed.
-Print Assumptions C09_page_overflow_refuted.
+(* before fix F23 the product MaxElements * Offset simply wrapped: MaxElements = Offset = 2^32 gave skip count 0, so
+   page number 2^32 of a one-element result returned that element.  With the fix that page is empty: *)
+Theorem C09_page_overflow_fixed :
+  wrap64 (4294967296 * 4294967296) = 0%Z /\
+  page (with_page default_lo 4294967296 4294967296) [7%N] = [].
+Proof. vm_compute. split; reflexivity. Qed.
+Print Assumptions C09_page_overflow_fixed.
 
 (* paging never changes whether the lookup fails *)
 Theorem C09_paged_error_iff : forall q lo g n k e,
@@ -182,8 +185,7 @@ Example C09_nonvacuous : forall g, graph_of (run e_ops) 0 = Some g ->
   lookup QAll (mk 0 None None false (Some (FLatest, FSubject)) 0) g = LErr EBadField /\
   lookup QAll (mk 3 None None false None 1) g = LOk [RsTriple e4] /\
   lookup QAll (mk (-1) None None false None (-1)) g = LOk [RsTriple e2; RsTriple e3; RsTriple e4] /\
-  (* the domain of the _partial theorems is inhabited non-trivially: second page of size 3 *)
-  (3 * Z.of_nat 1 <? 9223372036854775808)%Z = true /\
+  (* second page of size 3 *)
   lookup QAll (with_page (mk 0 None None false None 0) 3 (Z.of_nat 1)) g = LOk [RsTriple e4].
 Proof. intros g Hg. vm_compute in Hg. inversion Hg. subst g. vm_compute. repeat split. Qed.
 
